@@ -97,6 +97,48 @@ pub fn run_dimacs(case: &DimacsCase, st: &mut Stats) -> CaseResult {
     // the property claims the same models for the parsed formula (asserted next); clause-by-clause identity
     // with the generating list is recorded only
     st.flag("dimacs.parsed_clause_list_differs_from_generating_list(recorded only)", got != want);
+    let big = case.cnf.num_vars() > crate::tt::NV;
+    if big {
+        // more than 8 variables (multi-digit variable numbers): the models are compared on assignments instead of a
+        // truth table - pseudo-random ones and, for every clause, ones that falsify exactly that clause
+        use crate::big::{assignment, cnf_eval, falsifying, Clause};
+        let nn = case.cnf.num_vars().max(cnf.num_vars());
+        let gen: Vec<Clause> = want.iter().map(|c| c.iter().copied().collect()).collect();
+        let parsed: Vec<Clause> = got.iter().map(|c| c.iter().copied().collect()).collect();
+        ensure!(
+            cnf.num_vars() <= nn && parsed.iter().flatten().all(|(v, _)| *v < nn),
+            "C17/dimacs-models",
+            "the parsed formula mentions a variable beyond those of the text"
+        );
+        let seed = case.layout.iter().fold(0x9E37u64, |a, b| a.wrapping_mul(31).wrapping_add(*b as u64));
+        let mut probes: Vec<Vec<bool>> = (0..32).map(|k| assignment(seed, k, nn)).collect();
+        for (ci, c) in gen.iter().enumerate().take(48) {
+            probes.push(falsifying(seed, ci as u64, nn, c));
+        }
+        let e = if !case.cnf.clauses.is_empty() && !case.cnf.has_empty_clause() { Some(LogicalExpr::from_dimacs(&text)) } else { None };
+        for a in probes.iter() {
+            let w = cnf_eval(&gen, a);
+            ensure!(
+                cnf_eval(&parsed, a) == w,
+                "C17/dimacs-models",
+                "parsing\n{}\ngave a formula that is {} on an assignment where the text's clauses are {}",
+                text,
+                !w,
+                w
+            );
+            if let Some(e) = &e {
+                ensure!(
+                    logical_eval(e, a, 1) == Some(w),
+                    "C17/logical-expr-from-dimacs",
+                    "LogicalExpr::from_dimacs of\n{}\nis not {} on an assignment where the text's clauses are",
+                    text,
+                    w
+                );
+            }
+        }
+        st.bump("dimacs.many_variables");
+        st.flag("dimacs.variable_number_with_a_zero_digit", want.iter().flatten().any(|(v, _)| (v + 1).to_string().contains('0')));
+    } else {
     // models (through the library's own structure, read by the harness)
     let t = case.cnf.tt();
     let parsed_tt = got.iter().fold(Tt::TRUE, |acc, c| acc.and(c.iter().fold(Tt::FALSE, |a, (v, p)| a.or(Tt::lit(*v, *p)))));
@@ -114,6 +156,7 @@ pub fn run_dimacs(case: &DimacsCase, st: &mut Stats) -> CaseResult {
             t
         );
         st.bump("dimacs.logical_expr");
+    }
     }
     // round trip through to_dimacs
     let n = cnf.num_vars();
@@ -138,6 +181,30 @@ pub fn run_dimacs(case: &DimacsCase, st: &mut Stats) -> CaseResult {
     Ok(())
 }
 
+/// value of a LogicalExpr under a total assignment (labels are `shift`-based); None if a label is out of range
+fn logical_eval(e: &LogicalExpr, a: &[bool], shift: usize) -> Option<bool> {
+    Some(match e {
+        LogicalExpr::Literal(v, p) => {
+            if *v < shift || *v - shift >= a.len() {
+                return None;
+            }
+            a[*v - shift] == *p
+        }
+        LogicalExpr::Not(x) => !logical_eval(x, a, shift)?,
+        LogicalExpr::And(x, y) => logical_eval(x, a, shift)? & logical_eval(y, a, shift)?,
+        LogicalExpr::Or(x, y) => logical_eval(x, a, shift)? | logical_eval(y, a, shift)?,
+        LogicalExpr::Iff(x, y) => logical_eval(x, a, shift)? == logical_eval(y, a, shift)?,
+        LogicalExpr::Xor(x, y) => logical_eval(x, a, shift)? != logical_eval(y, a, shift)?,
+        LogicalExpr::Ite { guard, thn, els } => {
+            if logical_eval(guard, a, shift)? {
+                logical_eval(thn, a, shift)?
+            } else {
+                logical_eval(els, a, shift)?
+            }
+        }
+    })
+}
+
 /// like exprgen::logical_tt but refuses labels outside [shift, shift + 8)
 fn logical_tt_checked(e: &LogicalExpr, shift: usize) -> Option<Tt> {
     fn ok(e: &LogicalExpr, shift: usize) -> bool {
@@ -158,13 +225,18 @@ fn logical_tt_checked(e: &LogicalExpr, shift: usize) -> Option<Tt> {
 impl SubCheckT for Dimacs {
     type Case = DimacsCase;
     const NAME: &'static str = "dimacs";
-    const RULE: &'static str = "DIMACS text generated from a clause list: header counts right or wrong but >= 1 (a bare 0 is the clause terminator for the third-party lexer), comment lines before/between/after, arbitrary spaces/tabs/newlines/CRLF between tokens, clauses split across lines, empty clauses, optional missing final 0: Cnf::from_dimacs yields a formula with exactly the models of the generating clause list (clause-by-clause identity is recorded only; file variable i = label i-1); LogicalExpr::from_dimacs (>=1 clause, no empty clause) evaluates, under its documented 1-based labels, to the same truth table; printing with to_dimacs behind a header and re-parsing returns the same set of clause sets. Non-trivial: >=3 variables and >=2 clauses with >=2 literals";
+    const RULE: &'static str = "DIMACS text generated from a clause list (one case in nine with variable numbers up to 251, compared on sampled and clause-falsifying assignments instead of a truth table): header counts right or wrong but >= 1 (a bare 0 is the clause terminator for the third-party lexer), comment lines before/between/after, arbitrary spaces/tabs/newlines/CRLF between tokens, clauses split across lines, empty clauses, optional missing final 0: Cnf::from_dimacs yields a formula with exactly the models of the generating clause list (clause-by-clause identity is recorded only; file variable i = label i-1); LogicalExpr::from_dimacs (>=1 clause, no empty clause) evaluates, under its documented 1-based labels, to the same truth table; printing with to_dimacs behind a header and re-parsing returns the same set of clause sets. Non-trivial: >=3 variables and >=2 clauses with >=2 literals";
     fn cases(tier: Tier) -> u32 {
         tier.pick(10_000, 150_000)
     }
     fn strategy(_tier: Tier) -> BoxedStrategy<DimacsCase> {
         (
-            cnf_strategy(),
+            prop_oneof![
+                8 => cnf_strategy(),
+                // variable numbers with two and three digits (and zeros in them)
+                1 => proptest::collection::vec(proptest::collection::vec((prop_oneof![0u8..=30, 0u8..=250, Just(9u8), Just(99u8), Just(100u8), Just(199u8)], any::<bool>()), 1..=5), 1..=12)
+                    .prop_map(|clauses| CnfCase { clauses }),
+            ],
             (1u8..=20, 1u8..=20),
             proptest::collection::vec(any::<u8>(), 1..12),
             any::<bool>(),
